@@ -285,7 +285,7 @@ theorem Wr_modTable' (w : World) (t' : Nat) (f : Table → Table)
   rw [modify_comm w.tables t' t f (wrapG cb) h]
 
 theorem Wr_registerCb (w : World) (o : Target) (tm : Time) (tg : CbTarget) (c : Cb)
-    (hok : (BuildOp.register o tm tg c).okFor t) :
+    (hok : (ContentOp.register o tm tg c).okFor t) :
     (registerCb (Wr cb t w) o tm tg c).getD (Wr cb t w) = Wr cb t ((registerCb w o tm tg c).getD w) := by
   cases o with
   | table t' =>
@@ -296,7 +296,7 @@ theorem Wr_registerCb (w : World) (o : Target) (tm : Time) (tg : CbTarget) (c : 
       refine (Wr_modTable' cb t w t' (fun tb => { tb with cellCbs := tb.cellCbs.push tm c }) ?_).symm
       intro ht tb
       cases tm with
-      | render => exact absurd ht (by simpa [BuildOp.okFor] using hok)
+      | render => exact absurd ht (by simpa [ContentOp.okFor] using hok)
       | add => rfl
       | pre => rfl
       | post => rfl
@@ -309,7 +309,7 @@ theorem Wr_registerCb (w : World) (o : Target) (tm : Time) (tg : CbTarget) (c : 
   | cell r c' => cases tg <;> rfl
   | copy n => cases tg <;> rfl
 
-theorem Wr_buildOp (dw : Measure) (w : World) (op : BuildOp) (hok : op.okFor t) :
+theorem Wr_buildOp (dw : Measure) (w : World) (op : ContentOp) (hok : op.okFor t) :
     op.run dw (Wr cb t w) = Wr cb t (op.run dw w) := by
   cases op with
   | newRow => rfl
@@ -326,9 +326,9 @@ theorem Wr_buildOp (dw : Measure) (w : World) (op : BuildOp) (hok : op.okFor t) 
 end
 
 /-- content building commutes with a wrap -/
-theorem wrapEffect_buildOps (dw : Measure) (k : WKind) (t : Nat) (ops : List BuildOp)
+theorem wrapEffect_buildOps (dw : Measure) (k : WKind) (t : Nat) (ops : List ContentOp)
     (hops : ∀ op ∈ ops, op.okFor t) (w : World) :
-    ops.foldl (BuildOp.run dw) (w.wrapEffect k t) = (ops.foldl (BuildOp.run dw) w).wrapEffect k t := by
+    ops.foldl (ContentOp.run dw) (w.wrapEffect k t) = (ops.foldl (ContentOp.run dw) w).wrapEffect k t := by
   rw [wrapEffect_eq, wrapEffect_eq]
   cases wrapCb k with
   | none => rfl
